@@ -480,3 +480,211 @@ Fixpoint lcheck_segs (file : option rstate) (now : Z) (segs : list (list (lop * 
       let st0 := l_start now file in
       lcheck st0 seg && lcheck_segs (l_file (lrun (map fst seg) st0)) now r
   end.
+
+(* ================================================================== added for the stalled-subscriber and crash/fault cases *)
+Open Scope N_scope.
+
+(* ------------------------------------------------------------------ a stalled subscriber *)
+
+(* the notifier as the subscribers other than j see it *)
+Definition others (j : nat) (s : nstate) : nstate := firstn j s ++ skipn (S j) s.
+
+(* subscriber j's reader is stalled: its connection goroutine never takes another event *)
+Fixpoint stalled (j : nat) (ops : list nop) : bool :=
+  match ops with
+  | [] => true
+  | NRecv i :: r => negb (Nat.eqb i j) && stalled j r
+  | _ :: r => stalled j r
+  end.
+
+Fixpoint mem_nat (x : nat) (l : list nat) : bool :=
+  match l with [] => false | y :: r => Nat.eqb x y || mem_nat x r end.
+
+Fixpoint is_subseq (a b : list event) : bool :=
+  match a, b with
+  | [], _ => true
+  | _ :: _, [] => false
+  | x :: a', y :: b' => if event_eqb x y then is_subseq a' b' else is_subseq a b'
+  end.
+
+(* correspondence with stalled subscribers: n subscribers on the production connection path; the
+   ones listed in `stalled_subs` stop reading (their connection goroutine holds one event and
+   blocks on the connection); `blocked` = indices of operations that did not return in time.
+   Model: no operation blocks; a healthy subscriber (room at every publish) is handed the whole
+   publication sequence; a stalled one exactly what the model's queue accepted. *)
+Definition stream_history_ok2 (c : nat * list nat * list nop * list (list event) * list nat) : bool :=
+  let '(n, stalled_subs, ops, obs, blocked) := c in
+  let s0 := nrun (repeat (NSub 16) n) [] in
+  let s := nrun ops s0 in
+  match blocked with [] => true | _ => false end &&
+  Nat.eqb (length obs) n &&
+  forallb (fun i => mem_nat i stalled_subs || never_full i ops s0) (seq 0 n) &&
+  (fix go (i : nat) (chs : nstate) (obs : list (list event)) : bool :=
+     match chs, obs with
+     | [], [] => true
+     | ch :: chs', o :: obs' =>
+         events_eqb (delivered ch) o &&
+         (mem_nat i stalled_subs || events_eqb (pubs ops) o) && go (S i) chs' obs'
+     | _, _ => false
+     end) 0%nat s obs.
+
+(* the property's own predicate on the observation of such a case: some operation did not
+   terminate, or a healthy subscriber was not handed exactly the published sequence, or a stalled
+   one was handed something that is not a subsequence of it *)
+Definition stream_obs_violates (c : nat * list nat * list nop * list (list event) * list nat) : bool :=
+  let '(n, stalled_subs, ops, obs, blocked) := c in
+  match blocked with [] => false | _ => true end ||
+  (fix go (i : nat) (obs : list (list event)) : bool :=
+     match obs with
+     | [] => false
+     | o :: obs' =>
+         (if mem_nat i stalled_subs then negb (is_subseq o (pubs ops)) else negb (events_eqb (pubs ops) o))
+         || go (S i) obs'
+     end) 0%nat obs.
+
+(* ------------------------------------------------------------------ the history file on disk *)
+
+(* a tiny file system: names -> contents.  A file holds a complete document (one generation of the
+   history, as written by gob) or something the decoder rejects (empty, a prefix, other bytes). *)
+Inductive fcontent := FWhole (g : rstate) | FTorn.
+Definition fsys := list (bs * fcontent).
+
+Fixpoint fs_get (n : bs) (fs : fsys) : option fcontent :=
+  match fs with
+  | [] => None
+  | (k, c) :: r => if bs_eqb k n then Some c else fs_get n r
+  end.
+Fixpoint fs_del (n : bs) (fs : fsys) : fsys :=
+  match fs with
+  | [] => []
+  | (k, c) :: r => if bs_eqb k n then fs_del n r else (k, c) :: fs_del n r
+  end.
+Definition fs_set (n : bs) (c : fcontent) (fs : fsys) : fsys := (n, c) :: fs_del n fs.
+
+(* fsutil.createRenamingWriter: tmpFilename := filename + "~" *)
+Definition tmp_name (f : bs) : bs := f ++ [126].
+
+Inductive fstep :=
+| FOpenTrunc (n : bs)              (* os.OpenFile(n, O_CREATE|O_TRUNC|O_WRONLY): exists, empty *)
+| FWrite (n : bs)                  (* bufio spills a full buffer: a proper prefix of the document *)
+| FWriteLast (n : bs) (g : rstate) (* Flush: the document is complete *)
+| FSync (n : bs)
+| FClose
+| FRename (a b : bs)               (* atomic; fails (no effect) when a does not exist *)
+| FRemove (n : bs).
+
+Definition fs_step (fs : fsys) (s : fstep) : fsys :=
+  match s with
+  | FOpenTrunc n => fs_set n FTorn fs
+  | FWrite n => fs_set n FTorn fs
+  | FWriteLast n g => fs_set n (FWhole g) fs
+  | FSync _ | FClose => fs
+  | FRename a b => match fs_get a fs with Some c => fs_set b c (fs_del a fs) | None => fs end
+  | FRemove n => fs_del n fs
+  end.
+Definition fs_run (l : list fstep) (fs : fsys) : fsys := fold_left fs_step l fs.
+
+(* saveEvents (eventrecorder/impl.go) over fsutil.CreateRenamingWriter / RenamingWriter.Close:
+   open "<f>~", gob through bufio (Write..., Flush), then Close = fsync, close, rename "<f>~" -> f,
+   and the deferred os.Remove("<f>~") *)
+Definition save_prog (f : bs) (g : rstate) : list fstep :=
+  let t := tmp_name f in
+  [FOpenTrunc t; FWrite t; FWriteLast t g; FSync t; FClose; FRename t f; FRemove t].
+
+(* the error path: when the open fails nothing else happens; after any later failure (a write
+   error sets `abort`, fsync / close / rename errors return from close()) the deferred
+   os.Remove("<f>~") still runs *)
+Definition save_cleanup (f : bs) (k : nat) : list fstep :=
+  match k with O => [] | S _ => [FRemove (tmp_name f)] end.
+
+(* how a save ends: it completes, the process dies before step k, or step k fails *)
+Inductive stop := Completes | CrashAt (k : nat) | FaultAt (k : nat).
+
+Definition run_save (prog : list fstep) (cleanup : nat -> list fstep) (st : stop) (fs : fsys) : fsys :=
+  match st with
+  | Completes => fs_run prog fs
+  | CrashAt k => fs_run (firstn k prog) fs
+  | FaultAt k => fs_run (cleanup k) (fs_run (firstn k prog) fs)
+  end.
+
+(* the "move the previous generation aside first" shape: the live file is renamed away before the
+   final rename puts the new generation in place *)
+Definition bak_name (f : bs) : bs := f ++ [46; 111; 108; 100].
+Definition save_prog_aside (f : bs) (g : rstate) : list fstep :=
+  let t := tmp_name f in
+  [FOpenTrunc t; FWrite t; FWriteLast t g; FRename f (bak_name f); FSync t; FClose; FRename t f; FRemove t].
+
+(* newEventRecorder -> loadEvents(filename): a missing file is a first start, an undecodable one an
+   error (New fails), otherwise the generation in the file *)
+Inductive loaded := LFirstStart | LGen (g : rstate) | LRefused.
+Definition startup_load (fs : fsys) (f : bs) : loaded :=
+  match fs_get f fs with
+  | None => LFirstStart
+  | Some (FWhole g) => LGen g
+  | Some FTorn => LRefused
+  end.
+(* ... and the recorder it starts *)
+Definition startup (now : Z) (fs : fsys) (f : bs) : option lstate :=
+  match startup_load fs f with
+  | LFirstStart => Some (l_start now None)
+  | LGen g => Some (l_start now (Some g))
+  | LRefused => None
+  end.
+
+(* correspondence for fault / crash cases: generations are told apart by a tag user; the observed
+   class is 0 = previous generation, 1 = new generation, 2 = started empty, 3 = refused to start *)
+Definition gen_tag (k : N) : rstate := [([k], [])].
+Definition loaded_class (l : loaded) : N :=
+  match l with
+  | LGen g => match g with
+              | [(u, _)] => if bs_eqb u [1] then 0 else if bs_eqb u [2] then 1 else 4
+              | _ => 4
+              end
+  | LFirstStart => 2
+  | LRefused => 3
+  end.
+Definition save_case_fs (had : bool) : fsys := if had then [([102], FWhole (gen_tag 1))] else [].
+Definition save_case_class (had : bool) (st : stop) : N :=
+  loaded_class (startup_load (run_save (save_prog [102] (gen_tag 2)) (save_cleanup [102]) st (save_case_fs had)) [102]).
+(* case = (had a previous generation, Some stop | None = some instant of a complete save, observed class) *)
+Definition save_case_ok (c : bool * option stop * N) : bool :=
+  let '(had, st, obs) := c in
+  match st with
+  | Some s => save_case_class had s =? obs
+  | None => existsb (fun k => save_case_class had (CrashAt k) =? obs) (seq 0 9)
+  end.
+(* the property on the observation: with a previous generation the restart comes back with it or
+   with the new one; without one, empty or the new one *)
+Definition save_obs_violates (c : bool * option stop * N) : bool :=
+  let '(had, _, obs) := c in
+  negb ((obs =? 1) || (if had then obs =? 0 else obs =? 2)).
+
+(* start-up cases: the directory as a list of (name, content) codes — name 0 = the history file f,
+   1 = f~, k = f with another suffix; content 0 = the good generation, 1 = another complete
+   generation, anything else = something the decoder rejects *)
+Definition case_name (k : N) : bs :=
+  if k =? 0 then [102] else if k =? 1 then tmp_name [102] else [102; 46; k].
+Definition case_content (k : N) : fcontent :=
+  if k =? 0 then FWhole (gen_tag 1) else if k =? 1 then FWhole (gen_tag 2) else FTorn.
+Definition startup_case_fs (l : list (N * N)) : fsys :=
+  fold_left (fun fs nc => fs_set (case_name (fst nc)) (case_content (snd nc)) fs) l [].
+Definition startup_case_ok (c : list (N * N) * N) : bool :=
+  loaded_class (startup_load (startup_case_fs (fst c)) [102]) =? snd c.
+(* the property on the observation: a start on a good history file comes back with it *)
+Definition startup_obs_violates (c : list (N * N) * N) : bool :=
+  existsb (fun nc => (fst nc =? 0) && (snd nc =? 0)) (fst c) && negb (snd c =? 0).
+
+(* the property on the observations of a recorder history: a save and restart (RReload) must come
+   back with the entries of the state BEFORE it that are not older than the retention, same order.
+   The state before is taken from the observations themselves (the last dump, plus what was
+   recorded since), so that an earlier deviation is not blamed on the reload. *)
+Fixpoint robs_violation (s : rstate) (ops : list (rop * robs)) : bool :=
+  match ops with
+  | [] => false
+  | (o, ob) :: r =>
+      let s' := rstep s o in
+      match ob with
+      | ODump d => (match o with RReload _ => negb (dump_matches d s') | _ => false end) || robs_violation d r
+      | _ => robs_violation s' r
+      end
+  end.
